@@ -11,3 +11,4 @@ def run(ck):
     tables.r1b_iter_entries(ck, P)
     geometry.r2_raw_writers_bounded(ck, P)
     traps.r7_edge_clamps(ck, P)
+    sampling.r11_rounding_epsilon(ck, P)
